@@ -438,6 +438,7 @@ pub fn candidates(case: &Case) -> Vec<Case> {
             }
             out
         }
+        Case::Miri(_) => vec![],
         Case::Thr(c) => {
             let mut out = vec![];
             if c.n_queries > 3 {
@@ -478,7 +479,11 @@ pub fn minimise(case: &Case, sig: &Sig, budget: Duration) -> Case {
         other => other.clone(),
     };
     if !reproduces(&best, sig) {
-        return best;
+        // not deterministic under fixed simulator choices: allow several tries per candidate
+        std::env::set_var("QSIM_REPRO_TRIES", "30");
+        if !reproduces(&best, sig) {
+            return best;
+        }
     }
     loop {
         let mut improved = false;
